@@ -473,7 +473,26 @@ func randMessage(r *prng.Rng, md protoreflect.MessageDescriptor, o genOpts) *dyn
 	if o.exts != nil && md.ExtensionRanges().Len() > 0 {
 		o.exts.RangeExtensionsByMessage(md.FullName(), func(xt protoreflect.ExtensionType) bool {
 			xd := xt.TypeDescriptor()
-			if xd.IsList() || !r.Chance(1, 2) {
+			if !r.Chance(1, 2) {
+				return true
+			}
+			if xd.IsList() {
+				// a repeated extension: the runtimes hold a slice (an empty one is "not set")
+				l := m.NewField(xd).List()
+				n := []int{0, 1, 2, 3, 5}[r.Intn(5)]
+				if xd.Message() == nil && r.Chance(1, 8) {
+					n = []int{16, 33, 128, 130}[r.Intn(4)]
+				}
+				for ; n > 0; n-- {
+					if xd.Message() != nil {
+						l.Append(protoreflect.ValueOfMessage(subMessage(r, xd.Message(), o)))
+					} else {
+						l.Append(randScalar(r, xd))
+					}
+				}
+				if l.Len() > 0 {
+					m.Set(xd, protoreflect.ValueOfList(l))
+				}
 				return true
 			}
 			if xd.Message() != nil {
